@@ -46,6 +46,11 @@ def base_program(pkg, layout="three", import_form="from_import", entry_data=Fals
     E3i = gen.add_fn(p, top, "E3i", params=[("q", None)], const=34)
     E3 = gen.add_fn(p, top, "E3", params=[("p", None)], const=33)
     p["fns"][E3]["stmts"] = [gen.s_keep("/e3i", E3i, [gen.param("p")])]
+    # kept functions whose result is the empty text / empty bytes (an empty file in a file store)
+    EMS = gen.add_fn(p, mid, "EMS", const=37, data_path="/empty/text")
+    p["fns"][EMS]["ret"] = "empty_str"
+    EMB = gen.add_fn(p, mid, "EMB", params=[("a", None)], const=38)
+    p["fns"][EMB]["ret"] = "empty_bytes"
     # a kept call whose argument is a call written inside the argument list
     hn = gen.add_fn(p, mid, "hn", const=35)
     E4 = gen.add_fn(p, top, "E4", params=[("w", None)], const=36)
@@ -59,11 +64,13 @@ def base_program(pkg, layout="three", import_form="from_import", entry_data=Fals
         gen.s_keep("/e2", E2, [gen.lit("1"), gen.local(1, kw="z")]),
         gen.s_keep("/e3", E3, [gen.lit("4")]),
         gen.s_keep("/e4", E4, [gen.callarg(hn)]),
+        gen.s_call(EMS, []),
+        gen.s_keep("/empty/bytes", EMB, [gen.lit("1")]),
     ]
     p["entry"] = main
     if with_ext:
         p["ext"] = {"pkg": pkg + "_ext", "const": 1, "var": "1", "comment": "c"}
-    p["_ids"] = {"h2": h2, "C": C, "h1": h1, "A": A, "B": B, "D": D, "E1": E1, "E2": E2, "E3": E3, "E3i": E3i, "E4": E4, "hn": hn, "main": main, "leaf": leaf, "mid": mid, "top": top}
+    p["_ids"] = {"h2": h2, "C": C, "h1": h1, "A": A, "B": B, "D": D, "E1": E1, "E2": E2, "E3": E3, "E3i": E3i, "E4": E4, "hn": hn, "EMS": EMS, "EMB": EMB, "main": main, "leaf": leaf, "mid": mid, "top": top}
     return p
 
 
@@ -141,7 +148,9 @@ def matrix_cases(tier, seed, stores=("local",)):
                     # the variable's module must be importable before the reader's: only leaf -> mid -> top
                     continue
                 # put the variable first in its module
-                vid = gen.add_var(p0, vmod, "V_" + kind.upper(), kind)
+                # some variables are named like Python builtins (legitimate shadowing at module level)
+                vname = {"int": "max", "str": "format", "list": "filter"}.get(kind) if (access == "bare" and same_module and pos in ("A", "h2", "B")) else None
+                vid = gen.add_var(p0, vmod, vname or ("V_" + kind.upper()), kind)
                 p0["order"][vmod].remove(("var", vid))
                 p0["order"][vmod].insert(0, ("var", vid))
                 p0["fns"][ids[pos]]["reads"].append([vid, access])
